@@ -12,7 +12,7 @@ LEVEL = "model_checking"
 FAMILY = "interest"
 
 ACT_DEFAULTS = {"a": "", "p": "", "t": "", "v": False, "on": False, "subs": [], "fan": False, "size": 0, "held": False, "m": "", "n": 0,
-                "old": False}
+                "old": False, "sv": 0}
 
 
 # ----------------------------------------------------------------------------- projection of step lines
@@ -22,11 +22,14 @@ def project_wire(line, cfg):
     if act.get("a") == "reset":
         c = act.get("cfg", {})
         return {"i": 0, "scn": line["scn"], "t": line["t"], "act": {"a": "reset"},
-                "cfg": {"topics": c["topics"], "peers": c["peers"], "queue": c.get("queue", 0), "router": c.get("router", ""), "class": c.get("class", "")}}
+                "cfg": {"topics": c["topics"], "peers": c["peers"], "queue": c.get("queue", 0), "router": c.get("router", ""), "class": c.get("class", ""),
+                        "score": bool(c.get("score", False)), "gater": bool(c.get("gater", False)), "graylist": int(c.get("graylist", -6))}}
     a = dict(ACT_DEFAULTS)
     for k in ("a", "p", "t", "v", "on", "size", "held", "m", "n", "old"):
         if k in act:
             a[k] = act[k]
+    if act.get("a") == "score":      # "v" is the (integer) score here, a boolean for sub{p,t,v}
+        a["sv"], a["v"] = int(act.get("v", 0)), False
     a["subs"] = list(act.get("subs", []))
     a["fan"] = bool(act.get("fanoutOnly", False))
     anns = []
@@ -41,7 +44,9 @@ def project_wire(line, cfg):
             "anns": anns, "deliv": deliv, "wire": wire,
             "lp": {t: line["lp"].get(t, []) for t in cfg["topics"]}, "lp0": line.get("lp0", []), "gt": line.get("gt", []), "hconn": line.get("hconn", []),
             "bel": {t: st.get("topics", {}).get(t, []) for t in cfg["topics"]},
-            "res": line.get("res", []), "err": line.get("err", ""), "rdone": line.get("rdone", ""), "live": line.get("live", [])}
+            "res": line.get("res", []), "err": line.get("err", ""), "rdone": line.get("rdone", ""), "live": line.get("live", []),
+            "scores": {p: int(st.get("scores", {}).get(p, 0)) for p in cfg["peers"]},
+            "throttled": sorted({e["p"] for e in line["ev"] if e["k"] == "Throttle"})}
 
 
 def project_wire_file(path):
@@ -56,6 +61,7 @@ def project_wire_file(path):
 
 
 # ----------------------------------------------------------------------------- scenario generation (wire view)
+SCORED = dict(router="gossipsub", extra_cfg={"score": True})
 ALL_KINDS = ["subscribe", "cancel", "cancelOld", "cancelAgain", "relay", "unrelay", "unrelayAgain", "closeBusy", "joinFan", "close", "gate", "hpeer", "release", "resetIn", "rstIn",
              "dupIn", "dupInSet", "down", "up", "rsub", "quiet", "bsub"]
 
@@ -131,7 +137,7 @@ PROTO = {"gossipsub": {"p1": ("v11", "in"), "p2": ("v12", "out")},
 
 
 def assemble_wire(acts, router="gossipsub", conn=("p1", "p2"), held=(), their=None, topics=("T1", "T2"), peers=("p1", "p2"),
-                  queue=1, cls=""):
+                  queue=1, cls="", extra_cfg=None):
     """Prologue (initial connects) + generated stimuli + epilogue (open gates, release holds, re-open remote streams, quiet)."""
     their = {p: list((their or {"p1": ["T1"], "p2": []}).get(p, [])) for p in peers}
     out, gated, is_held, rdown = [], set(), set(), set()
@@ -176,8 +182,9 @@ def assemble_wire(acts, router="gossipsub", conn=("p1", "p2"), held=(), their=No
         out.append(peer_act({"a": "peer", "p": p, "subs": their[p]}))
     if not out or out[-1]["a"] != "quiet":
         out.append({"a": "quiet"})
-    return {"cfg": {"router": router, "queue": queue, "topics": list(topics), "peers": list(peers), "hosts": len(peers) + 1, "class": cls},
-            "acts": out}
+    cfg = {"router": router, "queue": queue, "topics": list(topics), "peers": list(peers), "hosts": len(peers) + 1, "class": cls}
+    cfg.update(extra_cfg or {})
+    return {"cfg": cfg, "acts": out}
 
 
 # ----------------------------------------------------------------------------- network view (real nodes only)
@@ -285,7 +292,7 @@ def model_checking(ctx):
     if ctx.thorough:
         jobs += [
             ("mc-wire-2peers", "MCInterest", mc_cfg(True, MaxOps=4, MaxHold=0, AllowRepeat=False, **wire_side), "ok", None, 1500),
-            ("mc-belief-2peers-all", "MCInterest", mc_cfg(True, MaxAcc=1, **belief_side), "ok", None, 1500),
+            ("mc-belief-2peers-all", "MCInterest", mc_cfg(True, MaxAcc=1, **dict(belief_side, MaxRemote=1, MaxHold=0)), "ok", None, 1500),
             ("mc-wire-1peer-repeats-faults", "MCInterest1", mc_cfg(False, **wire_side), "ok", None, 1500),
             ("mc-wire-1peer-fanout", "MCInterest1", mc_cfg(False, AllowFanout=True, AllowRepeat=False, **wire_side), "ok", None, 1500),
         ]
@@ -294,7 +301,8 @@ def model_checking(ctx):
     def one(j):
         name, module, cfg, want, prop, to = j
         return name, vlib.run_tlc(ctx, FAMILY, module, cfg, timeout=to, name=name, workers=2)
-    with cf.ThreadPoolExecutor(max_workers=4) as ex:
+    jobs.sort(key=lambda j: -j[5])      # the long ones first; 2 JVMs x 2 workers at a time
+    with cf.ThreadPoolExecutor(max_workers=2) as ex:
         for name, r in ex.map(one, jobs):
             res[name] = r
     states = transitions = 0
@@ -355,25 +363,43 @@ FORCED_CANCEL_TWICE = [
     {"a": "cancel", "t": "T1"}, {"a": "closeTopic", "t": "T1"}, {"a": "subscribe", "t": "T1"}, {"a": "cancelAgain", "t": "T1"}, {"a": "quiet"}]
 
 
+# gossipsub WITH peer scoring: a peer whose score is below the graylist threshold changes its interest, reconnects (hello) and
+# re-opens its stream while graylisted, then recovers; a graylisted DIRECT peer. The belief must follow every announcement.
+FORCED_GRAYLIST = [
+    {"a": "score", "p": "p1", "v": -10}, {"a": "sub", "p": "p1", "t": "T2", "v": True}, {"a": "sub", "p": "p1", "t": "T1", "v": False}, {"a": "quiet"},
+    {"a": "down", "p": "p1"}, {"a": "peer", "p": "p1", "subs": ["T1", "T2"]}, {"a": "quiet"}, {"a": "resetOut", "p": "p1"},
+    {"a": "peer", "p": "p1", "subs": ["T1"]}, {"a": "quiet"}, {"a": "score", "p": "p1", "v": 0}, {"a": "quiet"},
+    {"a": "score", "p": "p2", "v": -10}, {"a": "direct", "p": "p2", "on": True}, {"a": "sub", "p": "p2", "t": "T1", "v": True},
+    {"a": "direct", "p": "p2", "on": False}, {"a": "sub", "p": "p2", "t": "T2", "v": True}, {"a": "score", "p": "p2", "v": 0}, {"a": "quiet"}]
+# gossipsub with the peer gater: p1 is throttled (AcceptControl, a random decision per RPC with P = 48/49) while it changes its mind
+FORCED_GATER = [
+    {"a": "subscribe", "t": "T1"}, {"a": "gaterSetup", "p": "p1", "t": "T1", "bad": 3, "n": 4},
+    {"a": "sub", "p": "p1", "t": "T2", "v": True}, {"a": "sub", "p": "p1", "t": "T2", "v": False}, {"a": "sub", "p": "p1", "t": "T2", "v": True},
+    {"a": "sub", "p": "p1", "t": "T1", "v": False}, {"a": "sub", "p": "p1", "t": "T1", "v": True}, {"a": "sub", "p": "p1", "t": "T2", "v": False},
+    {"a": "sub", "p": "p1", "t": "T2", "v": True}, {"a": "sub", "p": "p1", "t": "T1", "v": False}, {"a": "gaterRelease"}, {"a": "quiet"}]
+
+
 def wire_plan(ctx):
     """(class name, generator arguments, assemble arguments, quick sample, thorough sample)."""
     api = ["subscribe", "cancel", "relay", "unrelay"]
     one = dict(peers=("p1",), conn=("p1",))
     return [
-        ("refcount", dict(L=5, kinds=api + ["quiet"]), {}, 220, 2000),
+        ("refcount", dict(L=5, kinds=api + ["quiet"]), {}, 200, 1400),
         ("repeats", dict(L=5, kinds=["subscribe", "cancel", "cancelOld", "cancelAgain", "relay", "unrelay", "unrelayAgain", "close", "closeBusy", "quiet"]),
-         {}, 260, 1800),
-        ("fanout", dict(L=5, kinds=["subscribe", "cancel", "relay", "joinFan", "close", "quiet"]), {}, 150, 1500),
+         {}, 240, 1600),
+        ("fanout", dict(L=5, kinds=["subscribe", "cancel", "relay", "joinFan", "close", "quiet"]), {}, 150, 1100),
         ("fanout-hello", dict(L=5, kinds=["subscribe", "cancel", "joinFan", "close", "down", "up", "resetIn", "quiet"], topics=("T2",), **one),
-         dict(topics=("T2",), **one), 100, 1000),
-        ("fullqueue", dict(L=6 if ctx.thorough else 5, kinds=api + ["gate", "quiet"], **one), dict(one), 320, 2400),
-        ("hellorace", dict(L=5, kinds=api + ["release", "quiet"], held=("p1",)), dict(held=("p1",)), 220, 2000),
+         dict(topics=("T2",), **one), 100, 800),
+        ("fullqueue", dict(L=6 if ctx.thorough else 5, kinds=api + ["gate", "quiet"], **one), dict(one), 300, 2000),
+        ("hellorace", dict(L=5, kinds=api + ["release", "quiet"], held=("p1",)), dict(held=("p1",)), 200, 1400),
         ("faults", dict(L=5 if ctx.thorough else 4, kinds=["subscribe", "cancel", "relay", "resetIn", "rstIn", "dupIn", "down", "up", "rsub", "quiet"],
-                        topics=("T1",), fan=(), **one), dict(topics=("T1",), **one), 330, 2800),
+                        topics=("T1",), fan=(), **one), dict(topics=("T1",), **one), 300, 2400),
         ("faults-2peers", dict(L=3, kinds=["subscribe", "cancel", "relay", "resetIn", "rstIn", "dupIn", "down", "up", "rsub", "quiet"], topics=("T1",), fan=()),
-         dict(topics=("T1",)), 120, 1200),
-        ("dupinbound", dict(L=4, kinds=["dupInSet", "dupIn", "rsub", "rstIn", "subscribe", "quiet"], max_fault=3, **one), dict(one), 150, 1500),
-        ("nextcancel", dict(L=6, kinds=["bsub", "subscribe", "cancel", "quiet"], topics=("T1",), fan=(), **one), dict(topics=("T1",), **one), 140, 1200),
+         dict(topics=("T1",)), 110, 900),
+        ("dupinbound", dict(L=4, kinds=["dupInSet", "dupIn", "rsub", "rstIn", "subscribe", "quiet"], max_fault=3, **one), dict(one), 140, 1100),
+        ("graylist", dict(L=4, kinds=["gray", "direct", "rsub", "down", "up", "rstIn", "dupInSet", "quiet"], max_fault=2, max_remote=3, **one),
+         dict(SCORED, **one), 200, 1500),
+        ("nextcancel", dict(L=6, kinds=["bsub", "subscribe", "cancel", "quiet"], topics=("T1",), fan=(), **one), dict(topics=("T1",), **one), 130, 900),
     ]
 
 
@@ -385,7 +411,7 @@ def build_wire_scenarios(ctx, rng):
         name, gkw, akw, nq, nt = item
         got, g = gen_wire(ctx, name, **gkw)
         return name, got, g
-    with cf.ThreadPoolExecutor(max_workers=3) as ex:
+    with cf.ThreadPoolExecutor(max_workers=2) as ex:
         results = list(ex.map(one, plan))
     for (name, gkw, akw, nq, nt), (_, got, g) in zip(plan, results):
         gen_states += g.distinct
@@ -399,9 +425,9 @@ def build_wire_scenarios(ctx, rng):
         for i, acts in enumerate(got):
             # every router shares the pubsub layer; most replays use gossipsub, a slice uses the other two
             router = "gossipsub" if i % 5 < 3 else ("floodsub" if i % 5 == 3 else "randomsub")
-            scns.append(assemble_wire(acts, router=router, cls=name, **akw))
+            scns.append(assemble_wire(acts, cls=name, **dict({"router": router}, **akw)))
     # random mixes over the whole alphabet (seeded simulation)
-    n_sim = 150 if not ctx.thorough else 1500
+    n_sim = 150 if not ctx.thorough else 1000
     got, g = gen_wire(ctx, "mixed", L=12, kinds=ALL_KINDS, simulate="num=%d" % n_sim, depth=14, max_fault=2, max_remote=3, max_quiet=3)
     classes["mixed"] = {"generated": len(got), "replayed": len(got), "exhaustive": False}
     for acts in got:
@@ -413,7 +439,9 @@ def build_wire_scenarios(ctx, rng):
         scns.append(assemble_wire(FORCED_HELLO_CONTENT, router=router, cls="forced-hello-content"))
         scns.append(assemble_wire(FORCED_DUP_INBOUND, router=router, cls="forced-dup-inbound"))
         scns.append(assemble_wire(FORCED_CANCEL_TWICE, router=router, cls="forced-cancel-twice"))
-    classes["forced"] = {"generated": 18, "replayed": 18, "exhaustive": True}
+    scns.append(assemble_wire(FORCED_GRAYLIST, cls="forced-graylist", **SCORED))
+    scns.append(assemble_wire(FORCED_GATER, cls="forced-gater", router="gossipsub", extra_cfg={"gater": True}))
+    classes["forced"] = {"generated": 20, "replayed": 20, "exhaustive": True}
     return scns, gen_states, gen_trans, classes
 
 
@@ -614,6 +642,9 @@ WIRE_OBLIGATIONS = {
     "a handle cancelled twice while exactly one sibling is live and no relay exists; also with no live handle": ["cancelAgain:oneLiveSiblingNoRelay", "cancelAgain:noneLive"],
     "a RelayCancelFunc called twice while another reference is live": ["unrelayAgain:oneLiveRefNoSub"],
     "several subscriptions cancelled oldest first; cancel after a refused Topic.Close": ["cancelOldestFirst", "closeRefused", "cancelAfterCloseRefused"],
+    "a subscription change and a hello received from a GRAYLISTED peer (gossipsub with scoring), also a direct one; the score recovers":
+        ["subFromGraylisted", "helloFromGraylisted", "subFromGraylistedDirect", "scoreRecovered"],
+    "a subscription change received from a gater-THROTTLED peer": ["subFromThrottled"],
     "quiescent lines judged": ["quiet"],
 }
 NET_OBLIGATIONS = {
